@@ -3,9 +3,9 @@ import vlib
 from harness import fam_raops, fam_ra2
 TRUSTED = fam_raops.TRUSTED
 ASSUME = ["integer element values (element operations and result dtypes are numpy's own; floats only with exactly representable results)"]
-RULE = "operations: colsum colcounts; " + fam_raops.RULE
+RULE = "operations: colsum colcounts colmean; " + fam_raops.RULE
 def run(R, tier, rng):
-    fam_raops.run_family(R, tier, rng, set("colsum colcounts".split()))
+    fam_raops.run_family(R, tier, rng, set("colsum colcounts colmean".split()))
     fam_ra2.run_c09(R, tier, rng)
 
 
